@@ -581,8 +581,21 @@ func execC15NonRTCM(c *child.Ctx, k detCase, cj []byte) {
 			}
 			var msgs []*handler.Message
 			h := handler.New(fixedStart, lvl)
+			if n%2 == 1 {
+				// some other part of the program creates a handler with the other level now
+				_ = handler.New(fixedStart, detLevels[1-li])
+			}
 			if m, _ := h.GetMessage(buf); m != nil {
 				msgs = append(msgs, m)
+			}
+			// what the display of this data looks like must not depend on that other handler
+			{
+				plain := handler.New(fixedStart, lvl)
+				mp, _ := plain.GetMessage(append([]byte(nil), junk...))
+				if mp != nil && len(msgs) > 0 && mp.String() != msgs[0].String() {
+					c.Violate("differs-from-canonical", fmt.Sprintf("the display of %d bytes of non-RTCM data scanned by a handler of level %v differs depending on whether a handler of the other level was created in between: %s", n, lvl, diffText(msgs[0].String(), mp.String())), cj)
+					return
+				}
 			}
 			// and through the stream handler, between two frames
 			f1, f2 := gen.RandFrame(r), gen.RandFrame(r)
@@ -678,7 +691,7 @@ func monC15(c *child.Ctx, replay json.RawMessage) {
 	}
 	// non-RTCM data of lengths around the longest frame (1029 bytes) and far beyond
 	{
-		k := detCase{Kind: "nonrtcm", Seed: r.Uint64() >> 1, Order: []int{1, 5, 100, 1023, 1026, 1028, 1029, 1030, 1031, 1032, 1033, 1040, 2048, 4097, r.Range(1034, 9000), r.Range(1034, 9000)}}
+		k := detCase{Kind: "nonrtcm", Seed: r.Uint64() >> 1, Order: []int{1, 5, 6, 100, 101, 1023, 1026, 1028, 1029, 1030, 1031, 1032, 1033, 1040, 2048, 4097, r.Range(1034, 9000), r.Range(1034, 9000)}}
 		if c.Batch%4 == 0 {
 			k.Order = append(k.Order, 65535, 65536, 70001)
 		}
